@@ -16,8 +16,8 @@
      dcel_fixup.go:fixVertices (range d.vertices)              (ii) writes prev of edges leaving / next of edges
                                                                     entering THAT vertex only: disjoint
      dcel_fixup.go:fixVertex (range v.incidents)               (i)  sorted by radialLess when > 2 (used cyclically;
-                                                                    <= 2 members have one cyclic order) - strictness
-                                                                    of radialLess not proved here, explored
+                                                                    <= 2 members have one cyclic order)
+                                                                    [radial_less_strict_total, fix_vertex_order_free]
      dcel_fixup.go:assignFaces (range d.halfEdges)             order of d.faces and each face's representative edge
                                                                     follow the map; consumers: label flood fill (ii,
                                                                     reachability), extractPolygons (i, sort +
@@ -357,3 +357,25 @@ Fixpoint strictly_sortedb {X : Type} (ltb : X -> X -> bool) (l : list X) : bool 
   | [] => true
   | x :: t => match t with [] => true | y :: _ => ltb x y && strictly_sortedb ltb t end
   end.
+
+(* ------------------------------------------------------------------------------------------ *)
+(* geom/dcel_fixup.go:radialLess and fixVertex. Direction vectors (second point minus first point
+   of an incident edge) over Z: exact for integer-lattice inputs, where the products below are
+   exact in binary64 as well. *)
+Definition radial_ltb (di dj : Z * Z) : bool :=
+  let '(x1, y1) := di in let '(x2, y2) := dj in
+  if (x1 >=? 0)%Z && (x2 <? 0)%Z then true
+  else if (x1 <? 0)%Z && (x2 >=? 0)%Z then false
+  else if (x1 =? 0)%Z && (x2 =? 0)%Z then
+         (if (y1 >=? 0)%Z || (y2 >=? 0)%Z then (y1 <? y2)%Z else (y2 <? y1)%Z)
+  else let det := (x1 * y2 - y1 * x2)%Z in                       (* di.Cross(dj) *)
+       if negb (det =? 0)%Z then (det >? 0)%Z
+       else (x1 * x1 + y1 * y1 <? x2 * x2 + y2 * y2)%Z.            (* lengthSq *)
+
+(* fixVertex: collect v.incidents (map order), sort radially when there are more than two, then
+   link every edge to its successor in the cyclic order: ei.prev = ej.twin, ej.twin.next = ei for
+   j = i+1 mod n. Result: the set of (edge, successor) pairs. *)
+Definition succ_pairs {X : Type} (l : list X) : list (X * X) := combine l (rot1 l).
+Definition fix_vertex (inc : list (nat * (Z * Z))) : list (nat * nat) :=
+  let s := if length inc <=? 2 then inc else isort_by radial_ltb snd inc in
+  map (fun p => (fst (fst p), fst (snd p))) (succ_pairs s).
